@@ -74,6 +74,9 @@ def history(cal):
             "batch": np.array(cal.batch_num_samp), "method": np.array(cal.method_samp)}
 
 
+RESTORE_DIFFS: list = []      # filled by run_segments: (segment index, paths at which the restored object differs from the saved one)
+
+
 def run_segments(cfg, segments, use_folder=None):
     """segments: list of (n_batches, boundary) with boundary in {'live', 'restore', 'end'} applied AFTER the segment.
     returns (history dict, list of return values, calibrator)"""
@@ -89,7 +92,12 @@ def run_segments(cfg, segments, use_folder=None):
             for n, boundary in segments:
                 rets.append(cal.calibrate(n))
                 if boundary == "restore":
+                    from vp.deep import deep, diff
+                    saved = deep(cal)
                     cal = Calibrator.restore_from_checkpoint(folder, model=toy_model)
+                    dd = diff(saved, deep(cal))
+                    if dd:
+                        RESTORE_DIFFS.append((len(rets) - 1, dd[:4]))
         return history(cal), rets, cal
     finally:
         if folder:
